@@ -320,9 +320,38 @@ func checkpointFamily(tr *kit.Tree, node *kit.Node, sel int, cs *kit.CaseStats) 
 	}
 	defer twin.Close()
 	forks := 0
+	fed := 0
+	dupCP := func(when string) error {
+		// the checkpoint block itself arrives again (a peer sending a branch from
+		// the attach point, any duplicate delivery): nothing may change, and
+		// what is served for it stays the reference state
+		before := cm2.Tip()
+		if err := cm2.AddBlocks([]types.Block{cp.Block}); err != nil {
+			return fmt.Errorf("%s: the checkpoint node refused a duplicate of its own checkpoint block %v: %v", when, cp.Index(), err)
+		}
+		if cm2.Tip() != before {
+			return fmt.Errorf("%s: a duplicate of the checkpoint block moved the checkpoint node's tip %v -> %v", when, before, cm2.Tip())
+		}
+		if st, ok := cm2.State(cp.ID); !ok || !bytes.Equal(refl.StateBytes(st), refl.StateBytes(cp.Ledger.State)) {
+			return fmt.Errorf("%s: after a duplicate of the checkpoint block the state served for it differs from the reference", when)
+		}
+		cs.Class("checkpoint:checkpoint-block-delivered-again")
+		return nil
+	}
+	if sel%2 == 0 {
+		if err := dupCP("before anything else"); err != nil {
+			return err
+		}
+	}
 	for _, n := range tr.Nodes {
 		if n == cp || !cp.IsAncestorOf(n) {
 			continue
+		}
+		fed++
+		if fed == 2 && sel%2 == 1 {
+			if err := dupCP("after the first descendant"); err != nil {
+				return err
+			}
 		}
 		e1 := cm2.AddBlocks([]types.Block{n.Block})
 		e2 := twin.CM.AddBlocks([]types.Block{n.Block})
@@ -351,7 +380,7 @@ func checkpointFamily(tr *kit.Tree, node *kit.Node, sel int, cs *kit.CaseStats) 
 
 var c02Prop = kit.Prop[C02Case]{
 	ID:   "C02",
-	Rule: "rapid fork trees biased to element-changing transactions (v1/v2 spends, ephemeral outputs, siafund claims, v1 contract formation / revision with and without window change / storage proof / natural expiry, v2 formation / revision / renewal / storage proof / expiration, attestations, foundation updates) × submission schedules × backend; 70% of cases give every v1 contract a unique window end, 30% share windows on purpose. After every tip change (and every failed submission): chain audit; element buckets, expiration lists and served supplements/proofs compared absolutely with the reference ledger of the best chain; full store dump and served view compared with a linear twin (fresh node fed exactly the best chain, one block per call); expiration lists compared with the documented list discipline driven by the store's own apply/revert history. A third of the cases also boot a node from a v2 checkpoint above the require height and compare everything it serves from there on. Non-trivial = a reverted block contains a contract operation, a siafund spend or a natural v1 expiry; distinct by hash of the case.",
+	Rule: "rapid fork trees biased to element-changing transactions (v1/v2 spends, ephemeral outputs, siafund claims, v1 contract formation / revision with and without window change / storage proof / natural expiry, v2 formation / revision / renewal / storage proof / expiration, attestations, foundation updates) × submission schedules × backend; 70% of cases give every v1 contract a unique window end, 30% share windows on purpose. After every tip change (and every failed submission): chain audit; element buckets, expiration lists and served supplements/proofs compared absolutely with the reference ledger of the best chain; full store dump and served view compared with a linear twin (fresh node fed exactly the best chain, one block per call); expiration lists compared with the documented list discipline driven by the store's own apply/revert history. A third of the cases also boot a node from a v2 checkpoint above the require height, deliver the checkpoint block to it again, and compare everything it serves and decides from there on (forks above the checkpoint included) with a from-genesis node. Non-trivial = a reverted block contains a contract operation, a siafund spend or a natural v1 expiry; distinct by hash of the case.",
 	Assumptions: []string{
 		"go.sia.tech/core decides validity and defines apply/revert diffs; the reference ledger keeps v1 expiration lists in the order a linear node would (append, swap-remove)",
 		"known finding F-C02-1 (expiration order is history dependent when a block removes a strict subset of a multi-entry list and is reverted): the case is cut at the first step where the documented list discipline itself differs from the linear order; such cases are counted under excluded_by_construction and everything order-insensitive is still checked",
